@@ -44,6 +44,21 @@ def programs(rng, tier):
         _expect[s] = ["OK", e]
         if rng.random() < 0.7:
             P.add(["parse", hexs(X.mutate(rng, s))])
+    # conditionals nested without parentheses in the condition / then / else position (the documented conditional does not nest:
+    # all are errors), with and without other operators around them, and the parenthesised (legal) versions
+    atoms = ["a", "b", "c", "d", "e", "!a", "a & b", "a | b", "x ^ y"]
+    for _ in range(60 if tier == "quick" else 1500):
+        p_, q_, r_, s_, u_ = (rng.choice(atoms) for _ in range(5))
+        inner = "%s ? %s : %s" % (q_, r_, s_)
+        for shape in ("%s ? %s : %s", "(%s) ? %s : %s"):
+            for pos in range(3):
+                parts = [p_, u_, rng.choice(atoms)]
+                parts[pos] = inner
+                P.add(["parse", hexs(shape % tuple(parts))])
+                parts[pos] = "(" + inner + ")"
+                P.add(["parse", hexs(shape % tuple(parts))])
+        P.add(["parse", hexs("%s => %s ? %s ? %s : %s : %s" % (p_, q_, r_, s_, u_, p_))])
+        P.add(["parse", hexs("%s ? %s : %s ? %s : %s" % (p_, q_, r_, s_, u_))])
     # deep nesting: parentheses and negations only
     for d in ([1, 2, 5, 20, 100] if tier == "quick" else [1, 2, 3, 5, 20, 100, 400]):
         P.add(["parse", hexs("(" * d + "a" + ")" * d)])
